@@ -280,6 +280,13 @@ def rule_locate_many(ctx):
             ctx.violated('R4', fi, 'return ' + T.show(v), 'positions found in the sorted order must be mapped back through the '
                          'same argsort (isort.take(indices) / isort[indices])', node=p.node)
             continue
+        if v[0] == 'sub':
+            idx = v[2]
+            clipped = idx[0] == 'call' and T.dotted(idx[1]) in ('np.clip', 'np.minimum', 'numpy.clip', 'numpy.minimum') and T.contains(idx, c)
+            if not clipped:
+                ctx.violated('R4', fi, 'return ' + T.show(v)[:120], 'searchsorted returns len(values) for a label above all labels: the position must be clipped to the last sorted '
+                             'element before the sorter is indexed (a modulo wraps it to the smallest label, a plain index raises)', node=p.node)
+                continue
         if v[0] == 'call' and T.kw(v, 'mode') != const('clip'):
             ctx.violated('R4', fi, 'return ' + T.show(v), "searchsorted may return len(values) for a label above all labels: "
                          "the take needs mode='clip' (the caller then detects the mismatch)", node=p.node)
